@@ -197,6 +197,22 @@ func (se *specEnv) ident(name string) SVal {
 		}
 		return SVal{tv, nil}
 	}
+	if strings.HasPrefix(name, "$") && name != "$i" && name != "$outer" {
+		if ac := f.letRegister(name[1:]); ac != nil {
+			if ac.LetT == nil {
+				// not evaluated yet (a loop head reached before the call): evaluate once in the entry state for its type
+				te := f.top().specEnv(f.top().entry, f.top().entry)
+				te.pol = 0
+				v := te.eval(ac.Clause.Expr)
+				if t, ok := v.V.(*Term); ok {
+					ac.LetT, ac.LetS = v.T, t.S
+				}
+			}
+			if ac.LetT != nil {
+				return SVal{f.ctx.comp(se.cur, "$let!"+ac.Let, ac.LetS), ac.LetT}
+			}
+		}
+	}
 	// loop-carried values and locals by source name
 	if se.lenv != nil {
 		for ph, v := range se.lenv.phis {
@@ -1019,6 +1035,14 @@ func (se *specEnv) call(e *SExpr) SVal {
 			ts = append(ts, se.term(a))
 		}
 		return SVal{f.ctx.uf("returned!"+key, SBool, ts...), tb}
+	case "dynreturned":
+		// dynreturned(fn, args..., results...): a call through the function value fn with these arguments completed
+		// and returned these results, on the way here
+		var ts []*Term
+		for _, a := range e.Args {
+			ts = append(ts, se.term(a))
+		}
+		return SVal{f.ctx.uf(dynRetName(ts), SBool, ts...), tb}
 	case "lastarg", "lastres":
 		// lastarg("pkg.F", n) / lastres("pkg.F", n): argument / result n of the most recent completed call to the
 		// `traced` function F (ghost registers; unknown code may have made further calls)
